@@ -694,7 +694,8 @@ def twin_specs(tier, seed):
     specs = [("extra", i) for i in range(len(EXTRA))]
     c2 = c02.gen_specs("quick", seed)
     specs += [("c02", s) for s in c2[::(40 if tier == "quick" else 8)]]
-    specs += [("c05", s) for s in c05.gen_specs("quick", seed)[::(60 if tier == "quick" else 12)]]
+    c5 = [s for s in c05.gen_specs("quick", seed) if s[0] == "redeclare" or (s[0] == "array" and s[5] == "idx" and s[3] == "none")]
+    specs += [("c05", s) for s in c5[::(6 if tier == "quick" else 1)]]
     specs += [("c06", s) for s in c06.gen_specs("quick", seed) if s[3] in ("index", "args") and not s[4] and s[5] == "none"][::(4 if tier == "quick" else 1)]
     specs += [("c08", s) for s in c08.gen_specs("quick", seed)[::(6 if tier == "quick" else 1)]]
     specs += [("c15", s) for s in list(c15.SCRIPTS)[::(4 if tier == "quick" else 1)]]
